@@ -101,8 +101,7 @@ impl AccountTrees {
             // this breaks recursion
             Ok(())
         } else {
-            let parent_atn =
-                Arc::new(AccountTreeNode::from(parent).expect("IE: synthetic parent is invalid"));
+            let parent_atn = Arc::new(AccountTreeNode::from(parent)?);
             target_account_tree.insert(parent.to_string(), parent_atn.clone());
 
             Self::build_account_tree(target_account_tree, parent_atn, other_account_tree)
